@@ -47,12 +47,28 @@ func overlayFor(sub string, native bool) (map[string][]byte, map[string]string, 
 	}
 	for _, f := range files {
 		base := filepath.Base(f)
-		if native && base == "rt_sym.go" || !native && base == "rt_native.go" {
+		if native && base == "rt_sym.go" || !native && strings.HasPrefix(base, "rt_native") {
 			continue
 		}
 		b, err := os.ReadFile(f)
 		if err != nil {
 			return nil, nil, err
+		}
+		// native runtime parts that touch identifiers of the tree under test are optional:
+		// "//verif:requires x" / "//verif:unless x" on the first line select them by whether the
+		// package declares x (so that a refactoring which removes a pool keeps the replay compiling)
+		if first, _, _ := strings.Cut(string(b), "\n"); strings.HasPrefix(first, "//verif:requires ") || strings.HasPrefix(first, "//verif:unless ") {
+			want := strings.HasPrefix(first, "//verif:requires ")
+			ids := strings.Split(strings.TrimSpace(first[strings.Index(first, " ")+1:]), ",")
+			ok := true
+			for _, id := range ids {
+				if declaresIdent(dst, strings.TrimSpace(id)) != want {
+					ok = false
+				}
+			}
+			if !ok {
+				continue
+			}
 		}
 		p := filepath.Join(dst, "zz_verif_"+base)
 		if native && strings.HasSuffix(base, ".go") && base != "rt_native.go" {
@@ -62,6 +78,23 @@ func overlayFor(sub string, native bool) (map[string][]byte, map[string]string, 
 		real[p] = f
 	}
 	return ov, real, nil
+}
+
+// declaresIdent: does a non-test Go file of the package directory declare the package-level
+// identifier (var/const/func/type, also inside a parenthesised var block)?
+func declaresIdent(dir, id string) bool {
+	files, _ := filepath.Glob(filepath.Join(dir, "*.go"))
+	re := regexp.MustCompile(`(?m)^(?:var\s+|const\s+|type\s+|func\s+|\t)` + regexp.QuoteMeta(id) + `\b`)
+	for _, f := range files {
+		if strings.HasSuffix(f, "_test.go") {
+			continue
+		}
+		b, err := os.ReadFile(f)
+		if err == nil && re.Match(b) {
+			return true
+		}
+	}
+	return false
 }
 
 func load(subs []string, js bool) (*Loaded, error) {
